@@ -44,4 +44,8 @@ def harnesses():
                      unwind=max(nx, 9) + 2, tier=tier, inst=inst, timeout=600,
                      domain="Unstructured over any byte string of symbolic length 0..=BYTES+2", free_bits=8 * nx + 4,
                      fns=["arbitrary::Arbitrary::arbitrary"]))
+    for b in [2, 7, 8]:
+        out.append(H("c04_closure_narrow_%d" % b, "C04", "c04::closure_narrow::<%d>" % b, unwind=4, tier="quick",
+                     inst="Uint<%d,1>" % b, domain="every operand pair of the width", free_bits=2 * b, timeout=900,
+                     fns=["inv_ring", "wrapping_mul", "saturating_mul", "overflowing_mul"]))
     return out
